@@ -33,21 +33,28 @@ reads the rest, proved from the product measure):
     renewal step (`cks_renewal`), hence the loop with unbounded inner loops returns `y` with the discrete Gaussian
     probability (`cks_unbounded_loop_law`); the executable model with its fuel is a restriction of that loop
     (`cks_model_refines`) and therefore has the discrete Gaussian law up to its fuel-exhaustion event
-    (`cks_loop_law_full` — formerly a `def … : Prop`); the discrete Gaussian weights sum to 1 (`discrete_gauss_pmf`);
+    (`cks_loop_law_full` — formerly a `def … : Prop`); conversely every run of the unbounded loop is a run of the model
+    with its three inner fuels as parameters (`SmpS.cksLoopG`, the model being the instance 64/4096/4096,
+    `cks_model_is_instance`) for all large enough fuels (`cks_unbounded_refines_model`), so with growing fuels the law is
+    exactly the discrete Gaussian and the fuel-exhaustion event has probability 0 (`cks_growing_fuel_law`); the discrete
+    Gaussian weights sum to 1 (`discrete_gauss_pmf`);
   * §10 rejection samplers: the batch layout is an injective reindexing (`batch_layout_injective`), the candidate stream is
     i.i.d. standard Laplace (`batch_layout_iid`), the model's `candidates` are a prefix of it (`batch_layout_candidates`),
     hence `LaplaceBoundedDomain` / `LaplaceBoundedNoise` on the uniform stream, in the code's consumption order, have the
-    conditioned Laplace law (`boundedDomain_stream_law`, `boundedNoise_stream_law`);
+    conditioned Laplace law (`boundedDomain_stream_law`, `boundedNoise_stream_law`, `boundedNoise_release_law`), and THE
+    SAMPLERS THEMSELVES are (ε, δ)-DP: C02's inequalities about the conditioned laws, now about the uniform stream
+    (`boundedDomain_sampler_dp` for every scale on the private side of the fixed point, `boundedNoise_sampler_dp`);
   * §11 Snapping: `(−1)^bit·log U` is standard Laplace (`snapping_sign_log_law`), the rounding step is round-half-up to
     the grid with cells `[(k−½)Λ, (k+½)Λ)` (`snapping_round_half_up`), the released value has the law of `snapPost` of a
     Laplace variable (`snapping_release_law`), the grid point `Λk` has the Laplace probability of its cell
-    (`snapping_grid_pmf`).
+    (`snapping_grid_pmf`), and in exact arithmetic the clamp / round / rescale pipeline keeps the Laplace guarantee:
+    pure ε_eff-DP with ε_eff ≤ ε (`snapping_release_dp`; not Mironov's floating-point theorem).
 
 NOT proved here (validated statistically by the harness, listed as `UNPROVED` in the evidence): that a normalised
 Gaussian vector is uniform on the sphere; an explicit bound on the probability of the model's fuel-exhaustion event
 `abort` in `cks_loop_law_full` for the model's FIXED inner fuels 64 / 4096 / 4096 (it is not small for large scales: the
 cap 4096 on the geometric count is reached with probability about `e^{−4096·τ}`, `τ ≈ 1/scale`; the unbounded loop has no such
-event, `cks_unbounded_loop_law`); that the law of the model's `snapUniform` (a dyadic double) is the round-down of a
+event, `cks_unbounded_loop_law`, and the event vanishes as the fuels grow, `cks_growing_fuel_law`); that the law of the model's `snapUniform` (a dyadic double) is the round-down of a
 continuous uniform — §11 idealises it as `unif01` — and the floating-point evaluation of `log`; and Bingham's rejection
 sampler (open finding, §7).
 -/
@@ -58,8 +65,11 @@ import DPL.Proofs.SamplersLap4Law
 import DPL.Proofs.SamplersRejection
 import DPL.Proofs.SamplersGammaSum
 import DPL.Proofs.SamplersStreamCKSFinal
+import DPL.Proofs.SamplersStreamCKSFuel
 import DPL.Proofs.SamplersStreamBatchLaw
 import DPL.Proofs.SamplersSnapRound
+import DPL.Proofs.ContinuousBoundedDomainDP
+import DPL.Proofs.SamplersStreamBatchDP
 
 namespace DPL.C03
 open DPL DPL.Smp MeasureTheory Set
@@ -762,6 +772,36 @@ theorem cks_loop_law_full (scale : ℝ) (hscale : 0 < scale) (y : ℤ) :
   obtain ⟨ht, _, hs⟩ := cks_params_pos scale hscale
   exact SmpS.cks_model_sandwich (cksTau scale) (cksSigma2 scale) ht hs y
 
+/-- the model's loop is the instance 64 / 4096 / 4096 of `SmpS.cksLoopG fb fg fa`, the same loop with its three inner fuels
+(coin fuel inside the geometric loop, cap on the geometric count, coin fuel of the acceptance test) as parameters -/
+theorem cks_model_is_instance (tau sigma2 : ℝ) (fuel : ℕ) (us : List ℝ) :
+    cksLoop tau sigma2 fuel us = SmpS.cksLoopG 64 4096 4096 tau sigma2 fuel us :=
+  SmpS.cksLoopG_model tau sigma2 fuel us
+
+/-- converse of `cks_model_refines`: a run of the unbounded loop on a list of uniforms is a run of the parametrised model
+for all inner fuels above a bound that depends only on the length of the list (and on τ, σ²) -/
+theorem cks_unbounded_refines_model (tau sigma2 : ℝ) (ht : 0 ≤ tau) (hs : 0 < sigma2) (F n : ℕ) (us : List ℝ) (y : ℤ)
+    (rest : List ℝ) (h : SmpS.loopI tau sigma2 F n us = .ok (y, rest)) :
+    ∃ K : ℕ, ∀ fb fa : ℕ, K ≤ fb → K ≤ fa → SmpS.cksLoopG fb F fa tau sigma2 n us = some (y, rest) := by
+  obtain ⟨K, hK1, hK2, hK3⟩ := SmpS.exists_fuel_bound tau sigma2 us.length
+  refine ⟨K, fun fb fa hfb hfa => ?_⟩
+  have h1 : (K : ℝ) ≤ fb := by exact_mod_cast hfb
+  have h2 : (K : ℝ) ≤ fa := by exact_mod_cast hfa
+  exact SmpS.loopI_sup tau sigma2 ht hs F n us y rest h fb fa (by omega) (by linarith) (by omega)
+    (fun k hk => lt_of_lt_of_le (hK3 k hk) h2)
+
+open DPL.Discrete in
+/-- **with growing fuels the model's loop has exactly the discrete Gaussian law, and its fuel-exhaustion event vanishes**:
+over the i.i.d. uniform stream, the probability that the parametrised model returns `y` for SOME values of its fuels is
+`e^{−y²/(2σ²)} / Σ_z e^{−z²/(2σ²)}`, and almost surely it returns for some values of the fuels -/
+theorem cks_growing_fuel_law (tau sigma2 : ℝ) (ht : 0 < tau) (hs : 0 < sigma2) (y : ℤ) :
+    streamμ {ω : ℕ → ℝ | ∃ fb fg fa fuel N rest,
+        SmpS.cksLoopG fb fg fa tau sigma2 fuel (pre ω N) = some (y, rest)}
+      = ENNReal.ofReal (Real.exp (-((y : ℝ) ^ 2 / (2 * sigma2))))
+          / ∑' z : ℤ, ENNReal.ofReal (Real.exp (-((z : ℝ) ^ 2 / (2 * sigma2)))) ∧
+    streamμ {ω : ℕ → ℝ | ∀ fb fg fa fuel N, SmpS.cksLoopG fb fg fa tau sigma2 fuel (pre ω N) = none} = 0 :=
+  ⟨SmpS.retG_law tau sigma2 ht hs y, SmpS.abortG_null tau sigma2 ht hs⟩
+
 /-! ### 10. the rejection samplers over the i.i.d. UNIFORM stream (batch layout)
 
 `SmpS.idxS s m r` is the position in the uniform stream of the `r`-th uniform (`r = 0..3`) of candidate number `m` when
@@ -820,6 +860,52 @@ theorem boundedDomain_stream_law (scale lo hi x : ℝ) (hs : 0 < scale) (hne : l
   rw [hev, SmpS.rejLoop_stream_law _ hm lo hi S hS, ← haff, Measure.map_apply hm (measurableSet_Icc.inter hS),
     Measure.map_apply hm measurableSet_Icc, Set.preimage_inter]
 
+/-- **the `LaplaceBoundedDomain` sampler itself is (ε, δ)-DP**: for inputs of the domain at most `sens` apart, every scale
+`b` on the private side of the fixed point of `_find_scale` (C02's hypotheses `hden`, `hfix` of `bounded_domain_dp_of_fixpoint`)
+and every measurable output set, the probability — over the i.i.d. uniform stream, in the code's batch layout — that the
+model's `boundedDomain` returns a value in the set satisfies the (ε, δ) inequality.
+(`boundedDomain_stream_law` + C02's `Cont.bdLaw_dp` about the conditioned Laplace law.) -/
+theorem boundedDomain_sampler_dp (eps delta sens lo hi b x x' : ℝ) (hb : 0 < b) (hd0 : 0 ≤ delta) (hd : delta < 1)
+    (hs : 0 < sens) (hlohi : lo < hi) (hx1 : lo ≤ x) (hx2 : x ≤ hi) (hx'1 : lo ≤ x') (hx'2 : x' ≤ hi)
+    (hxx : |x - x'| ≤ sens)
+    (hden : 0 < eps - Real.log (Cont.bdDeltaC (Cont.pyMin2 sens (hi - lo)) (hi - lo) b) - Real.log (1 - delta))
+    (hfix : Cont.bdF eps delta (Cont.pyMin2 sens (hi - lo)) (hi - lo) b ≤ b) (S : Set ℝ) (hS : MeasurableSet S) :
+    Discrete.streamμ {ω : ℕ → ℝ | ∃ N fuel v n,
+        boundedDomain b lo hi x (Discrete.pre ω N) fuel = some (v, n) ∧ v ∈ S}
+      ≤ ENNReal.ofReal (Real.exp eps)
+          * Discrete.streamμ {ω : ℕ → ℝ | ∃ N fuel v n,
+              boundedDomain b lo hi x' (Discrete.pre ω N) fuel = some (v, n) ∧ v ∈ S}
+        + ENNReal.ofReal delta := by
+  have hclamp : ∀ z : ℝ, lo ≤ z → z ≤ hi → clampPy lo hi z = z := by
+    intro z h1 h2
+    simp only [clampPy]
+    rw [if_neg (not_lt.mpr h2), if_neg (not_lt.mpr h1)]
+  have hbd : ∀ z : ℝ, Cont.lapMeasure b z (Icc lo hi ∩ S) / Cont.lapMeasure b z (Icc lo hi) = Cont.bdLaw b lo hi z S := by
+    intro z
+    unfold Cont.bdLaw
+    rw [Measure.smul_apply, Measure.restrict_apply hS, smul_eq_mul, div_eq_mul_inv, mul_comm, Set.inter_comm]
+  rw [boundedDomain_stream_law b lo hi x hb hlohi.ne S hS, boundedDomain_stream_law b lo hi x' hb hlohi.ne S hS,
+    hclamp x hx1 hx2, hclamp x' hx'1 hx'2, hbd, hbd]
+  exact Cont.bdLaw_dp eps delta sens lo hi b x x' hb hd0 hd hs hlohi hx1 hx2 hx'1 hx'2 hxx hden hfix S hS
+
+/-- non-vacuity of the hypotheses `hden`, `hfix` of `boundedDomain_sampler_dp`: ε = 1, δ = 0, sensitivity 1, domain [0, 1],
+scale b = 1 (there `ΔC = 1` and `_f(b) = 1 ≤ b`) -/
+example : 0 < (1:ℝ) - Real.log (Cont.bdDeltaC (Cont.pyMin2 1 (1 - 0)) (1 - 0) 1) - Real.log (1 - 0) ∧
+    Cont.bdF 1 0 (Cont.pyMin2 1 (1 - 0)) (1 - 0) 1 ≤ (1:ℝ) := by
+  have hp : Cont.pyMin2 (1:ℝ) (1 - 0) = 1 := by simp [Cont.pyMin2]
+  have hne : (1:ℝ) - Real.exp (-1) ≠ 0 := by
+    have : Real.exp (-1) < 1 := by rw [Real.exp_lt_one_iff]; norm_num
+    linarith
+  have hfe : DPL.feq (1:ℝ) 0 = false := by simp [DPL.feq]
+  have hC : Cont.bdDeltaC (1:ℝ) (1 - 0) 1 = 1 := by
+    simp only [Cont.bdDeltaC, hfe]
+    norm_num
+    rw [div_eq_one_iff_eq hne]; ring
+  rw [hp]
+  unfold Cont.bdF
+  simp only [hC, transc_log]
+  norm_num
+
 /-- **`LaplaceBoundedNoise.randomise` over the uniform stream**: the noise that is added to the value (`boundedNoise_additive`)
 has the Laplace law with scale `sens/ε` conditioned on `[−noise_bound, noise_bound]` -/
 theorem boundedNoise_stream_law (eps delta sens : ℝ) (hs : 0 < sens / eps) (S : Set ℝ) (hS : MeasurableSet S) :
@@ -839,6 +925,66 @@ theorem boundedNoise_stream_law (eps delta sens : ℝ) (hs : 0 < sens / eps) (S 
 
 /-- non-vacuity of `boundedNoise_stream_law`'s hypothesis -/
 example : (0 : ℝ) < 1 / 1 := by norm_num
+
+/-- the released value of `LaplaceBoundedNoise.randomise` (value + accepted noise) over the uniform stream: the Laplace law
+`lapMeasure (sens/ε) x` conditioned on `[x − noise_bound, x + noise_bound]` -/
+theorem boundedNoise_release_law (eps delta sens x : ℝ) (hs : 0 < sens / eps) (S : Set ℝ) (hS : MeasurableSet S) :
+    Discrete.streamμ {ω : ℕ → ℝ | ∃ N fuel v n,
+        boundedNoise eps delta sens x (Discrete.pre ω N) fuel = some (v, n) ∧ v ∈ S}
+      = Cont.lapMeasure (sens / eps) x
+            (Icc (x - noiseBound eps delta sens) (x + noiseBound eps delta sens) ∩ S)
+          / Cont.lapMeasure (sens / eps) x (Icc (x - noiseBound eps delta sens) (x + noiseBound eps delta sens)) := by
+  have hm : Measurable (fun w : ℝ => x + w) := measurable_const.add measurable_id
+  have hev : {ω : ℕ → ℝ | ∃ N fuel v n, boundedNoise eps delta sens x (Discrete.pre ω N) fuel = some (v, n) ∧ v ∈ S}
+      = {ω : ℕ → ℝ | ∃ N fuel w n, boundedNoiseNoise eps delta sens (Discrete.pre ω N) fuel = some (w, n)
+          ∧ w ∈ (fun w => x + w) ⁻¹' S} := by
+    ext ω
+    simp only [mem_ofPred_eq, boundedNoise, mem_preimage]
+    constructor
+    · rintro ⟨N, fuel, v, n, h, hv⟩
+      cases hr : boundedNoiseNoise eps delta sens (Discrete.pre ω N) fuel with
+      | none => rw [hr] at h; simp at h
+      | some p =>
+        rw [hr] at h
+        simp only [Option.map_some, Option.some.injEq, Prod.mk.injEq] at h
+        exact ⟨N, fuel, p.1, p.2, hr, by rw [h.1]; exact hv⟩
+    · rintro ⟨N, fuel, w, n, h, hw⟩
+      exact ⟨N, fuel, x + w, n, by rw [h]; rfl, hw⟩
+  rw [hev, boundedNoise_stream_law eps delta sens hs _ (hm hS),
+    SmpS.lapMeasure_translate_apply _ x hs _ (measurableSet_Icc.inter hS),
+    SmpS.lapMeasure_translate_apply _ x hs _ measurableSet_Icc]
+  congr 2
+  · ext w
+    simp only [mem_inter_iff, mem_Icc, mem_preimage]
+    constructor
+    · rintro ⟨⟨h1, h2⟩, h3⟩; exact ⟨⟨by linarith, by linarith⟩, h3⟩
+    · rintro ⟨⟨h1, h2⟩, h3⟩; exact ⟨⟨by linarith, by linarith⟩, h3⟩
+  · ext w
+    simp only [mem_Icc, mem_preimage]
+    constructor
+    · rintro ⟨h1, h2⟩; exact ⟨by linarith, by linarith⟩
+    · rintro ⟨h1, h2⟩; exact ⟨by linarith, by linarith⟩
+
+/-- **the `LaplaceBoundedNoise` sampler itself is (ε, δ)-DP** (`0 < δ ≤ ½`): for inputs at most `sens` apart and every
+measurable output set, the probability — over the i.i.d. uniform stream, in the code's batch layout — that the model's
+`boundedNoise` releases a value in the set satisfies the (ε, δ) inequality.
+(`boundedNoise_release_law` + C02's `Cont.bounded_noise_dp_measure`.) -/
+theorem boundedNoise_sampler_dp (eps delta sens x x' : ℝ) (he : 0 < eps) (hd : 0 < delta) (hd2 : delta ≤ 1 / 2)
+    (hs : 0 < sens) (hx : |x - x'| ≤ sens) (S : Set ℝ) (hS : MeasurableSet S) :
+    Discrete.streamμ {ω : ℕ → ℝ | ∃ N fuel v n,
+        boundedNoise eps delta sens x (Discrete.pre ω N) fuel = some (v, n) ∧ v ∈ S}
+      ≤ ENNReal.ofReal (Real.exp eps)
+          * Discrete.streamμ {ω : ℕ → ℝ | ∃ N fuel v n,
+              boundedNoise eps delta sens x' (Discrete.pre ω N) fuel = some (v, n) ∧ v ∈ S}
+        + ENNReal.ofReal delta := by
+  have hb : 0 < sens / eps := by positivity
+  rw [boundedNoise_release_law eps delta sens x hb S hS, boundedNoise_release_law eps delta sens x' hb S hS,
+    SmpS.noiseBound_eq, ← SmpS.bounded_noise_law_eq eps delta sens x he hd hs S hS,
+    ← SmpS.bounded_noise_law_eq eps delta sens x' he hd hs S hS]
+  exact Cont.bounded_noise_dp_measure eps delta sens x x' he hd hd2 hs hx S hS
+
+/-- non-vacuity of the hypotheses of `boundedNoise_sampler_dp` (ε = 1, δ = 1/4, sens = 1, x = 0, x' = 1) -/
+example : (0:ℝ) < 1 ∧ (0:ℝ) < 1/4 ∧ (1/4:ℝ) ≤ 1/2 ∧ |(0:ℝ) - 1| ≤ 1 := by norm_num
 
 /-! ### 11. Snapping: the law of the released grid point
 
@@ -889,6 +1035,52 @@ theorem snapping_release_law (eps sens lo hi x : ℝ) (hscale : 0 < 1 / snapEffE
 
 /-- non-vacuity of the hypothesis of `snapping_release_law`: ε = 1, sensitivity 1, bounds [0, 1] -/
 example : (0 : ℝ) < 1 / snapEffEps 1 (snapBound 1 0 1) := by
+  have hfe : Smp.feq (1 : ℝ) 0 = false := by simp [Smp.feq]
+  simp only [snapEffEps, snapBound, hfe, epsneg, bits_ldexp]
+  norm_num
+
+/-- **Snapping in exact arithmetic is ε_eff-DP (hence ε-DP)**: for inputs at most `sens` apart, the release laws of
+`snapping_release_law` (fair bit, continuous uniform, real `log`) satisfy the pure-DP inequality with the model's
+effective epsilon `ε_eff = (ε − 2η)/(1 + 12·B·η) ≤ ε` on every measurable set — post-processing of the Laplace ratio
+(the clamp is 1-Lipschitz, so the clamped rescaled inputs are at most 1 apart).  This is NOT Mironov's theorem about the
+floating-point mechanism (C02 cites that); it says that nothing in the model's clamp / round / rescale pipeline breaks
+the guarantee of the underlying Laplace mechanism. -/
+theorem snapping_release_dp (eps sens lo hi x x' : ℝ) (hsens : 0 < sens) (hlohi : lo ≤ hi) (he : 0 ≤ eps)
+    (heff : 0 < snapEffEps eps (snapBound sens lo hi)) (hx : |x - x'| ≤ sens) (S : Set ℝ) (hS : MeasurableSet S) :
+    let release := fun (z : ℝ) (p : ℕ × ℝ) =>
+      snapPost eps sens lo hi
+        (truncate (-snapBound sens lo hi) (snapBound sens lo hi) (z / sens - snapBound sens lo hi - lo / sens)
+          + 1 / snapEffEps eps (snapBound sens lo hi) * snapLaplace p.1 p.2)
+    (SmpS.bitLaw.prod unif01).map (release x) S
+        ≤ ENNReal.ofReal (Real.exp (snapEffEps eps (snapBound sens lo hi)))
+            * (SmpS.bitLaw.prod unif01).map (release x') S ∧
+    snapEffEps eps (snapBound sens lo hi) ≤ eps := by
+  intro release
+  have hfe : Smp.feq sens 0 = false := by
+    simp only [Smp.feq, Bool.and_eq_false_iff, decide_eq_false_iff_not, not_le]; left; exact hsens
+  have hB : 0 ≤ snapBound sens lo hi := by
+    simp only [snapBound, hfe, Bool.false_eq_true, if_false]
+    have : 0 ≤ hi - lo := by linarith
+    positivity
+  have hscale : 0 < 1 / snapEffEps eps (snapBound sens lo hi) := by positivity
+  refine ⟨?_, SmpS.snapEffEps_le eps _ he hB⟩
+  have h1 := snapping_release_law eps sens lo hi x hscale
+  have h2 := snapping_release_law eps sens lo hi x' hscale
+  show (SmpS.bitLaw.prod unif01).map (release x) S ≤ _ * (SmpS.bitLaw.prod unif01).map (release x') S
+  rw [show (SmpS.bitLaw.prod unif01).map (release x) = _ from h1,
+    show (SmpS.bitLaw.prod unif01).map (release x') = _ from h2]
+  have hc : |truncate (-snapBound sens lo hi) (snapBound sens lo hi) (x / sens - snapBound sens lo hi - lo / sens)
+      - truncate (-snapBound sens lo hi) (snapBound sens lo hi) (x' / sens - snapBound sens lo hi - lo / sens)| ≤ 1 := by
+    refine (SmpS.truncate_lipschitz _ _ _ _ (by linarith)).trans ?_
+    have : x / sens - snapBound sens lo hi - lo / sens - (x' / sens - snapBound sens lo hi - lo / sens)
+        = (x - x') / sens := by ring
+    rw [this, abs_div, abs_of_pos hsens, div_le_one hsens]
+    exact hx
+  have := SmpS.lapMeasure_map_ratio _ (SmpS.measurable_snapPost eps sens lo hi) _ _ _ 1 hscale hc S hS
+  rwa [one_div_one_div] at this
+
+/-- non-vacuity of `snapping_release_dp`'s hypothesis on the effective epsilon: ε = 1, sensitivity 1, bounds [0, 1] -/
+example : (0 : ℝ) < snapEffEps 1 (snapBound 1 0 1) := by
   have hfe : Smp.feq (1 : ℝ) 0 = false := by simp [Smp.feq]
   simp only [snapEffEps, snapBound, hfe, epsneg, bits_ldexp]
   norm_num
